@@ -19,7 +19,8 @@ RULE = ('every ordered pair of catalogue constraints (##any, ##other, every non-
         '{##local, ##targetNamespace, n1, n2}; 1.1 adds notNamespace lists and one-name notQName '
         'variants) x operation x route (component call / instance validation), evaluated on the '
         'universe {absent, target, n1, n2, fresh} x {a, zz}; a case is one (version, op, route, c1, '
-        'c2); non-trivial = the two constraints denote different, non-empty, non-universal sets; '
+        'c2); plus three-way attribute-group intersections and one group shared by three types (alone, with an own wildcard, '
+        'extended from a base with a wildcard); non-trivial = the two constraints denote different, non-empty, non-universal sets; '
         'quick enumerates all 1.0 pairs, all 1.1 pairs on the component route and a seeded slice of '
         '1.1 pairs on the instance route; thorough enumerates everything')
 ASSUMPTIONS = [
